@@ -4,3 +4,4 @@ pub mod c12;
 pub mod c20;
 pub mod c17;
 pub mod e3;
+pub mod c08;
